@@ -2,20 +2,20 @@
 
 Decided clauses:
   C08.arity   the reader of `ska delete -f <names file>` accepts a line holding exactly one name
-  C08.guard   both refusals of delete_samples diverge and dominate the assignment of self.variants;
-              generic_modes::delete saves only after delete_samples returned (refused => file untouched)
-  C08.recount every path from `self.variants = ..` to return passes update_counts(false)
-  C08.names   a name is dropped iff its index is recorded for column removal; a column is skipped iff its
-              index equals the next recorded index
-Not decided: order preservation of ndarray::push_column (library).
+  C08.guard   generic_modes::delete saves only after delete_samples returned (refused => file untouched)
+  C08.func    delete_samples, interpreted on bounded tables (all row contents, every non-empty proper subset of the
+              samples, several argument orders), leaves exactly the table of the remaining samples: names in order,
+              columns removed, rows left empty dropped with their k-mers, counts recounted; unknown name / all /
+              no names panic
+Not decided: tables beyond the bound; ndarray / HashSet are modelled, not analysed.
 """
 from ..facts import AnchorLost, _strip_generics
 from ..expr import ExprBuilder, show, subexprs
 from ..cond import edge_conds
 from .util import reachable_without, field_writes, can_return_from
 
-EXPLANATION = 'Dominance / must-pass-through / decision-edge rules over delete_samples, generic_modes::delete and the Delete arm of main.'
-ASSUMPTIONS = ['ndarray push_column keeps column order (library)']
+EXPLANATION = 'Small-scope abstract interpretation of delete_samples against the plain-table model; dominance rule in generic_modes::delete; reader arity in the Delete arm of main.'
+ASSUMPTIONS = ['models of ndarray::Array2 (zeros/t/outer_iter/push_column), HashSet<String> and Vec are faithful']
 MSA = 'merge_ska_array::MergeSkaArray'
 
 
@@ -81,54 +81,6 @@ def run(facts, chk, tier, only=None):
                    evals=max(len(sw), 1), sample=dict(readers=readers, switches=[x[1] for x in sw]))
 
     # ---------------------------------------------------------------- guards in delete_samples
-    def guards():
-        b = facts.fn(MSA + '::delete_samples')
-        vi = facts.field_index(MSA, 'variants')
-        w = field_writes(b, 1, vi)
-        if len(w) != 1:
-            raise AnchorLost('delete_samples: %d assignments of self.variants' % len(w))
-        wb = w[0][0]
-        panics = [blk.idx for blk in b.blocks if blk.idx in b.live_blocks() and blk.term.k == 'call' and blk.term.target is None
-                  and 'panic' in (blk.term.callee.name or '')]
-        eb = ExprBuilder(b)
-        # refusal 1: empty / all  (is_empty(del_names) || len(del_names) == nsamples)
-        # refusal 2: unknown name (!del_name_set.is_empty())
-        found = {}
-        for blk in b.blocks:
-            if blk.idx not in b.live_blocks() or blk.term.k != 'switch':
-                continue
-            e = eb.operand(blk.term.discr)
-            s = show(e)
-            kind = None
-            if 'is_empty(' in s and 'del_names' in s:
-                kind = 'empty'
-            elif 'nsamples(' in s and 'len(' in s:
-                kind = 'all'
-            elif 'is_empty(' in s and 'del_name_set' in s:
-                kind = 'unknown-name'
-            if kind:
-                found[kind] = blk.idx
-        res = []
-        for kind in ('empty', 'all', 'unknown-name'):
-            if kind not in found:
-                res.append((kind, False, 'refusal test not found'))
-                continue
-            sb = found[kind]
-            t = b.blocks[sb].term
-            div = [s for s in set(t.succs()) if not can_return_from(b, s)]
-            dom = b.dominates(sb, wb)
-            res.append((kind, bool(div) and dom, 'switch bb%d: diverging edge=%s dominates write=%s' % (sb, bool(div), dom)))
-        return res, w[0][1].span
-    r = chk.guard('C08.guard', 'C08.guard:delete_samples', guards)
-    if r is not None:
-        res, sp = r
-        for kind, ok, why in res:
-            key = 'C08.guard:delete_samples:%s' % kind
-            if ok:
-                chk.ok('C08.guard', key, sp, why, sample=dict(refusal=kind, detail=why))
-            else:
-                chk.violation('C08.guard', key, where=sp, detail='refusal "%s" does not diverge before self.variants is replaced: %s' % (kind, why))
-
     def order():
         b = facts.fn('generic_modes::delete')
         ds = [(bb, t) for bb, t in b.calls() if (t.callee.name or '') == MSA + '::delete_samples']
@@ -144,85 +96,9 @@ def run(facts, chk, tier, only=None):
         else:
             chk.violation('C08.guard', 'C08.guard:delete:order', where=sp, detail='save can run without / before delete_samples in generic_modes::delete')
 
-    # ---------------------------------------------------------------- recount
-    def recount():
-        b = facts.fn(MSA + '::delete_samples')
-        vi = facts.field_index(MSA, 'variants')
-        w = field_writes(b, 1, vi)
-        eb = ExprBuilder(b)
-        ucs = [(bb, t) for bb, t in b.calls() if (t.callee.name or '') == MSA + '::update_counts']
-        good = [bb for bb, t in ucs if eb.operand(t.args[1]) == ('const', 0, 'bool')]
-        out = []
-        for wb, s in w:
-            ok = all(rb not in reachable_without(b, wb, avoid_blocks=good) for rb in b.return_blocks())
-            out.append((s.span, ok))
-        return out
-    r = chk.guard('C08.recount', 'C08.recount:delete_samples', recount)
-    if r is not None:
-        for sp, ok in r:
-            if ok:
-                chk.ok('C08.recount', 'C08.recount:delete_samples', sp, 'update_counts(false) on every path from the column removal to return')
-            else:
-                chk.violation('C08.recount', 'C08.recount:delete_samples', where=sp,
-                              detail='delete_samples can return without update_counts(false): k-mers found only in deleted samples stay in the file')
-
-    # ---------------------------------------------------------------- names / columns
-    def names():
-        b = facts.fn(MSA + '::delete_samples')
-        eb = ExprBuilder(b, through_vars=False)
-        res = []
-        # (a) contains(name) decides index-push vs name-keep
-        cs = [blk.idx for blk in b.blocks if blk.idx in b.live_blocks() and blk.term.k == 'switch' and
-              'contains(' in show(eb.operand(blk.term.discr)) and 'del_name_set' in show(eb.operand(blk.term.discr))]
-        if len(cs) != 1:
-            raise AnchorLost('delete_samples: %d switches on del_name_set.contains' % len(cs))
-        sb = cs[0]
-        t = b.blocks[sb].term
-        tt = next(tg for v, tg in t.targets if v == 0)   # false edge
-        tf = t.otherwise                                    # true edge
-        loop_head = [x for x in b.dominators()[sb] if b.in_cycle(x)]
-
-        def pushes(start, ty):
-            reach = reachable_without(b, start, avoid_blocks=[sb])
-            return [bb for bb, c in b.calls() if bb in reach and (c.callee.full or '').startswith('std::vec::Vec::<%s>::push' % ty)]
-        idx_true = pushes(tf, 'usize')
-        idx_false = pushes(tt, 'usize')
-        nm_true = pushes(tf, 'std::string::String')
-        nm_false = pushes(tt, 'std::string::String')
-        ok_a = bool(idx_true) and not idx_false and bool(nm_false) and not nm_true
-        res.append(('name-vs-index', ok_a, 'contains=true -> idx push %s / name push %s; contains=false -> idx push %s / name push %s'
-                    % (bool(idx_true), bool(nm_true), bool(idx_false), bool(nm_false))))
-        # (b) push_column is skipped iff *next_idx == sample_idx
-        es = [blk.idx for blk in b.blocks if blk.idx in b.live_blocks() and blk.term.k == 'switch' and
-              eb.operand(blk.term.discr)[0] == 'bin' and eb.operand(blk.term.discr)[1] == 'Eq' and
-              'sample_idx' in show(eb.operand(blk.term.discr))]
-        if len(es) != 1:
-            raise AnchorLost('delete_samples: %d switches comparing the next index with sample_idx' % len(es))
-        eb_ = es[0]
-        t2 = b.blocks[eb_].term
-        neq = next(tg for v, tg in t2.targets if v == 0)
-        eq = t2.otherwise
-        pc = [bb for bb, c in b.calls() if 'push_column' in (c.callee.name or '')]
-        if len(pc) != 1:
-            raise AnchorLost('delete_samples: %d push_column calls' % len(pc))
-        # loop head = the `next` call block of the column loop: stop there
-        heads = [bb for bb, c in b.calls() if (c.callee.name or '').endswith('::next') and b.in_cycle(bb) and bb in b.dominators()[eb_]]
-        stop = heads[-1:] if heads else []
-        skip_on_eq = pc[0] not in reachable_without(b, eq, avoid_blocks=stop)
-        keep_on_neq = pc[0] in reachable_without(b, neq, avoid_blocks=stop)
-        # and the None edge of `if let Some(next_idx_val) = next_idx` keeps the column
-        res.append(('column-skip', skip_on_eq and keep_on_neq, 'equal -> skip=%s, different -> push_column=%s' % (skip_on_eq, keep_on_neq)))
-        # advancing the index iterator only on the equal edge
-        adv = [bb for bb, c in b.calls() if (c.callee.name or '').endswith('::next') and bb in reachable_without(b, eq, avoid_blocks=stop) and bb not in stop]
-        adv_neq = [bb for bb, c in b.calls() if (c.callee.name or '').endswith('::next') and bb in reachable_without(b, neq, avoid_blocks=stop) and bb not in stop]
-        res.append(('index-advance', bool(adv) and not adv_neq, 'next() on equal edge=%s, on different edge=%s' % (bool(adv), bool(adv_neq))))
-        return res, t.span
-    r = chk.guard('C08.names', 'C08.names:delete_samples', names)
-    if r is not None:
-        res, sp = r
-        for kind, ok, why in res:
-            key = 'C08.names:delete_samples:%s' % kind
-            if ok:
-                chk.ok('C08.names', key, sp, why, sample=dict(rule=kind, detail=why))
-            else:
-                chk.violation('C08.names', key, where=sp, detail=why)
+    # ---------------------------------------------------------------- the operation itself (functional, small scope)
+    # delete_samples interpreted on every non-empty proper subset of 2..4 (thorough: 5) samples, in several argument orders,
+    # over tables holding every row content; result (names, k-mers, rows, counts) == table built from the remaining samples;
+    # unknown / all / no names panic.  Replaces the shape rules C08.guard:delete_samples, C08.recount and C08.names.
+    from . import tableops
+    chk.guard('C08.func', 'C08.func:delete_samples', lambda: tableops.check_delete(facts, chk, 'C08.func', tier))
